@@ -27,7 +27,7 @@ import irispie as ir
 from .common import Ctx, Rng, rat_of_float, VERIF
 
 DRIVERS = ["C01"]
-EXTRA_PROPS = ['QMatBridge', 'C01QZ', 'BridgeC01Sim', 'C01State', 'GenTieCore', 'GenTieC01']   # refinement bridge: the executable QMat model satisfies the hypotheses of the matrix-level theorems
+EXTRA_PROPS = ['QMatBridge', 'C01QZ', 'BridgeC01Sim', 'C01State', 'GenTieCore', 'GenTieC01', 'C01Final']   # refinement bridge: the executable QMat model satisfies the hypotheses of the matrix-level theorems
 LEVEL = "proof"
 MANIFEST = {
     "category": "proof",
@@ -45,7 +45,13 @@ MANIFEST = {
              "forward expansion (BridgeC01Sim) refine the theorem-level definitions; object state and loops (Props/C01State.lean): the expansion memo as a "
              "state machine (any sequence of horizon requests = fresh computations), histories on one object (assign/solve/observe/copy: every "
              "observation is the pure function of the parameters in force), variant locality of the solve/simulate loop, the frame-window condition for "
-             "split = single, uniqueness of the bounded unstable block. "
+             "split = single; Props/C01Final.lean: the certificate is necessary and sufficient (a failing block has a witness history), the "
+             "measurement certificate with its rejection branch (the measurement equations hold for every lead vector iff the lead columns of G "
+             "vanish), full uniqueness (any shock-free solution of the whole stacked system with a bounded unstable block follows the computed "
+             "recursion) and the end-to-end theorem from the QZ identities with input-level hypotheses only. "
+             "Not claimed: boundedness under shocks (non-explosiveness is proved for the shock-free deviation path; on unit-root models the certificate is "
+             "evaluated on the stable block of Ta, to which the theorem is not transported), E4/W = 0 as matrix equalities from QZ, that the "
+             "executable dynidPairs satisfy LeadIdentities (tied by the `vectors` stream), the simulator write-back (see BridgeC01Sim). "
              "PARTIAL: the quantifier over model programs is covered by translation validation -- per generated model the certificate is "
              "evaluated in exact rational arithmetic on the implementation's own systemize()/get_solution() matrices (bound 1e-8*scale), "
              "the stability certificate and T Ua = Ua Ta exactly, the simulated databox against the exact recursion; that scipy's ordqz/schur/lstsq "
@@ -984,6 +990,15 @@ def sqtri_line(b: Built) -> str:
     return "sqtri " + " ".join(mat_text(m) for m in (sol.T, sol.Ua, sol.Ta, sol.P, sol.Pa, sol.K, sol.Ka, X, Xa))
 
 
+def mcert_line(b: Built):
+    """measurement certificate of the returned system / solution: lead columns of G zero, F Z + G_b, F D + H, F Hm + J"""
+    s_, sol = b.system, b.sol
+    if s_.F.shape[0] == 0:
+        return None
+    nf = b.m._invariant.dynamic_descriptor.get_num_forwards()
+    return f"mcert {nf} " + " ".join(mat_text(m) for m in (s_.F, s_.G, s_.H, s_.J, sol.Z, sol.H, sol.D))
+
+
 def stab_matrix(b: Built):
     """the block on which non-explosiveness is claimed: T itself without unit roots, else the stable block of Ta"""
     nunit = b.sol.num_unit_roots
@@ -1143,6 +1158,9 @@ def check_model(ctx: Ctx, i, r: Rng, spec, verdict, lines: dict, n_cases: int):
     lines["vec"].append((tag, vec_line(b), vec_impl(b)))
     lines["cert"].append((tag, cert_line(b), b))
     lines["sqtri"].append((tag, sqtri_line(b), b))
+    ml = mcert_line(b)
+    if ml is not None:
+        lines["mcert"].append((tag, ml, b))
     Tm = stab_matrix(b)
     k = propose_power(Tm)
     if k is None:
@@ -1430,7 +1448,7 @@ def check_measurement_lead(ctx: Ctx, r: Rng, spec, tag):
 
 def flush_lines(ctx: Ctx, lines: dict):
     """send the queued requests through the Lean driver (one process for all streams) and compare"""
-    order = ["vec", "simD", "stab", "cert", "sqtri", "simT", "memo", "hist", "plan"]
+    order = ["vec", "simD", "stab", "cert", "sqtri", "simT", "memo", "hist", "plan", "mcert"]
     allreq = [l for k in order for (_, l, _) in lines[k]]
     allrep = ctx.model("C01", allreq)
     rep_of, pos = {}, 0
@@ -1508,6 +1526,22 @@ def flush_lines(ctx: Ctx, lines: dict):
                                                           max(float(v) for k, v in dd.items() if k != "scale"))
         if bad:
             ctx.disagree("square-triangular", case, f"T Ua = Ua Ta, P = Ua Pa, K = Ua Ka, X = Ua Xa within {bound:.2e}", json.dumps(bad))
+    # measurement certificate: exact evaluation in Lean, bound in the harness; lead columns of G exactly zero
+    if rep_of["mcert"] is not None:
+        for (t, l, b), rep in zip(lines["mcert"], rep_of["mcert"]):
+            case = {"model": t["model"], "spec": t["spec"]}
+            ctx.streams_compared["measurement-certificate"] = ctx.streams_compared.get("measurement-certificate", 0) + 1
+            if not rep.startswith("ok "):
+                ctx.disagree("measurement-certificate", case, "residuals", rep[:100]); continue
+            dd = {k: Fraction(v) for k, v in (kv.split("=", 1) for kv in rep.split()[1:])}
+            bound = TOL_CERT * float(dd["scale"])
+            bad = {k: float(v) for k, v in dd.items() if k in ("Z", "D", "H") and float(v) > bound}
+            if dd["gLead"] != 0:
+                bad["gLead"] = float(dd["gLead"])
+            ctx.extra["max_measurement_certificate_residual"] = max(ctx.extra.get("max_measurement_certificate_residual", 0.0),
+                                                                    max(float(dd[k]) for k in ("Z", "D", "H")))
+            if bad:
+                ctx.disagree("measurement-certificate", case, f"G lead columns = 0 and F Z + G_b, F D + H, F Hm + J within {bound:.2e}", json.dumps(bad))
     # class T: exact recursion vs simulated databox
     items = lines["simT"]
     replies = rep_of["simT"]
@@ -1552,7 +1586,7 @@ def exact_certificate_cases():
 
 
 def new_lines():
-    return {"vec": [], "cert": [], "stab": [], "simT": [], "simD": [], "sqtri": [], "memo": [], "hist": [], "plan": []}
+    return {"vec": [], "cert": [], "stab": [], "simT": [], "simD": [], "sqtri": [], "memo": [], "hist": [], "plan": [], "mcert": []}
 
 
 def replay_corpus(ctx: Ctx):
